@@ -9,8 +9,432 @@ def check(rep, tier, replay=None):
         "Cox-de Boor cardinal B-spline pieces, three-term recurrences), plus partition of unity, cumulative-basis shape, "
         "monomial_derivative(s)/monomial_integral closed forms, Lagrange Kronecker property and LGR exactness.  Identities are in "
         "coefficient space and therefore hold for every evaluation point.")
-    rep.assumptions.append("integrate_absolute_polynomial and binary_interval_search take runtime arguments and are NOT decided here")
+    rep.assumptions.append("integrate_absolute_polynomial is decided in exact arithmetic (rule I1), not its 1e-9 rounding; binary_interval_search is decided for ranges up to length 8 over a 4-letter alphabet (rule I2), longer ranges are not covered")
     second = tier == "thorough"
     tables.run(rep, "W.basis", tables.basis_witnesses(10), "coefficient tables == definitions; cumulative shape; partition of unity (K=0..10)", 120, second)
     tables.run(rep, "W.util", tables.utility_witnesses(10), "monomial_derivative(s), monomial_integral, lagrange_basis, lgr_nodes", 80, second)
     rep.unit("2 batched static_assert TUs over polynomial/basis.hpp, polynomial/quadrature.hpp")
+    check_i1(rep)
+    check_i2(rep, 8 if tier == "thorough" else 7)
+
+
+# ---- I1: integrate_absolute_polynomial by exhaustive case analysis over the ordering of roots and interval ends ------
+
+def check_i1(rep):
+    import itertools
+    import re
+    from fractions import Fraction
+    import astlib as A
+    import fe
+    import pe
+    from report import Finding
+    rep.rule("I1", "integrate_absolute_polynomial: in every ordering of the roots relative to [t0,t1] the result is |sum of signed antiderivative differences|", minimum=10)
+    idx = A.index(fe.ast_dump("integrate_absolute_polynomial"))
+    fns = [d for d in idx if d.kind in A.FUNCS and d.pattern and d.qname.split("::")[-1] == "integrate_absolute_polynomial" and A.body(d.node) is not None]
+    if len(fns) != 1:
+        rep.broke("I1: integrate_absolute_polynomial not found")
+        return
+    fn = fns[0]
+    body = A.body(fn.node)
+
+    class Bad(Exception):
+        pass
+    POS = {"L": -1, "t0": 0, "I": 1, "t1": 2, "R": 3}     # position classes of a point relative to t0 < t1
+
+    def run_case(kind, cls):
+        """kind: const | linear | quad0 (no real roots) | quad2 ; cls: position class(es) of the root(s).
+        returns the linear combination {point: coeff} inside the final abs()."""
+        nums = {"const": {"A": 0, "B": 0}, "linear": {"A": 0, "B": 3}, "quad0": {"A": 2, "B": 3}, "quad2": {"A": 2, "B": 3}}[kind]
+        env = {}           # variable -> abstract point name or ('lin', dict)
+        pos = {"t0": "t0", "t1": "t1", "inf": "R"}
+        if kind == "linear":
+            pos["r"] = cls[0]
+        if kind == "quad2":
+            pos["r1"], pos["r2"] = cls
+        lam = {}
+
+        def point(e):
+            """abstract point denoted by expression e"""
+            t = re.sub(r"\s", "", A.show(e))
+            if e[0] == "ref" and e[1] in ("t0", "t1"):
+                return e[1]
+            if e[0] == "ref" and e[1] in env:
+                return env[e[1]]
+            if "infinity" in t:
+                return "inf"
+            if e[0] == "call":
+                nm = str(e[1]).split("::")[-1]
+                if nm in ("clamp", "min", "max"):
+                    args = [point(a) for a in e[2]]
+                    if nm == "clamp":
+                        return pmax(pmin(args[0], args[2]), args[1])
+                    return pmin(*args) if nm == "min" else pmax(*args)
+            # root formulas
+            if kind == "linear":
+                try:
+                    if all(pe.ev(e, {"A": 0, "B": b, "C": c}) == Fraction(-c, b) for b, c in ((3, 5), (-2, 7))):
+                        return "r"
+                except pe.PEError:
+                    pass
+            if kind == "quad2" and e[0] == "op" and e[1] in ("+", "-") and e[3][0] == "call" and str(e[3][1]).split("::")[-1] == "sqrt":
+                ok = True
+                for a, b, c in ((2, 3, -5), (-1, 4, 7), (3, -2, -9)):
+                    try:
+                        cen = pe.ev(e[2], {"A": a, "B": b, "C": c})
+                        rad2 = pe.ev(e[3][2][0], {"A": a, "B": b, "C": c, **res_env(a, b, c)})
+                    except pe.PEError:
+                        ok = False
+                        break
+                    if cen != Fraction(-b, 2 * a) or rad2 != Fraction(b * b, 4 * a * a) - Fraction(c, a):
+                        ok = False
+                if ok:
+                    return "r1" if e[1] == "-" else "r2"
+            raise Bad("cannot interpret `%s` as a point" % A.show(e)[:60])
+
+        def res_env(a, b, c):
+            out = {}
+            for n, ex in locals_.items():
+                try:
+                    out[n] = pe.ev(ex, {"A": a, "B": b, "C": c})
+                except pe.PEError:
+                    pass
+            return out
+
+        def rank(p):
+            c = pos[p]
+            return (POS[c], {"r1": 0, "r": 0, "r2": 1}.get(p, 0))
+
+        def pmin(a, b):
+            if a == b:
+                return a
+            ra, rb = rank(a), rank(b)
+            if ra == rb:
+                raise Bad("order of %s and %s undetermined" % (a, b))
+            return a if ra < rb else b
+
+        def pmax(a, b):
+            if a == b:
+                return a
+            ra, rb = rank(a), rank(b)
+            if ra == rb:
+                raise Bad("order of %s and %s undetermined" % (a, b))
+            return a if ra > rb else b
+
+        def lin(e):
+            if e[0] == "num":
+                return {(): Fraction(e[1])}
+            if e[0] in ("call", "sub") and ((e[0] == "call" and e[1] in lam) or (e[0] == "sub" and e[1][0] == "ref" and e[1][1] in lam)):
+                arg = e[2][0]
+                p = point(arg)
+                p = {"inf": "t1"}.get(p, p) if False else p
+                return {p: Fraction(1)}
+            if e[0] == "op" and e[1] in ("+", "-"):
+                a, b = lin(e[2]), lin(e[3])
+                out = dict(a)
+                for k, v in b.items():
+                    out[k] = out.get(k, 0) + (v if e[1] == "+" else -v)
+                return out
+            if e[0] == "op" and e[1] == "*":
+                a, b = lin(e[2]), lin(e[3])
+                if set(a) == {()}:
+                    return {k: v * a[()] for k, v in b.items()}
+                if set(b) == {()}:
+                    return {k: v * b[()] for k, v in a.items()}
+            if e[0] == "neg":
+                return {k: -v for k, v in lin(e[1]).items()}
+            raise Bad("cannot interpret `%s` as a combination of antiderivative values" % A.show(e)[:60])
+
+        locals_ = {}
+
+        def cond(e):
+            t = re.sub(r"\s", "", A.show(e))
+            if e[0] == "op" and e[1] == "&&":
+                return cond(e[2]) and cond(e[3])
+            if e[0] == "op" and e[1] == "||":
+                return cond(e[2]) or cond(e[3])
+            if e[0] == "op" and e[1] in ("<", ">", "<=", ">=") and e[2][0] == "call" and str(e[2][1]).split("::")[-1] == "abs":
+                v = abs(nums[e[2][2][0][1]])
+                thr = pe.ev(e[3], {})
+                return {"<": v < thr, ">": v > thr, "<=": v <= thr, ">=": v >= thr}[e[1]]
+            if e[0] == "op" and e[1] in (">", ">=") and e[2][0] == "ref" and e[2][1] in locals_ and e[3] == ("num", 0):
+                return kind == "quad2"      # discriminant-like quantity positive exactly when there are two distinct real roots
+            raise Bad("condition `%s`" % t[:60])
+
+        result = {}
+
+        def ex(stmt):
+            k = stmt.get("kind")
+            if k == "CompoundStmt":
+                for c in A.kids(stmt):
+                    ex(c)
+            elif k == "DeclStmt":
+                for v in A.kids(stmt):
+                    if v.get("kind") != "VarDecl" or not A.kids(v):
+                        continue
+                    e = A.to_expr(A.kids(v)[-1])
+                    if e[0] == "lambda":
+                        lam[v.get("name")] = e[1]
+                    else:
+                        try:
+                            env[v.get("name")] = point(e)
+                        except Bad:
+                            locals_[v.get("name")] = e
+            elif k == "IfStmt":
+                ks = A.kids(stmt)
+                if cond(A.to_expr(ks[0])):
+                    ex(ks[1])
+                elif len(ks) > 2:
+                    ex(ks[2])
+            elif k in ("BinaryOperator", "CXXOperatorCallExpr", "ExprWithCleanups"):
+                e = A.to_expr(stmt)
+                if e[0] == "op" and e[1] == "=" and e[2][0] == "ref":
+                    env[e[2][1]] = point(e[3])
+                else:
+                    raise Bad("statement %s" % A.show(e)[:50])
+            elif k == "ReturnStmt":
+                e = A.to_expr(A.kids(stmt)[0])
+                if not (e[0] == "call" and str(e[1]).split("::")[-1] == "abs"):
+                    raise Bad("result is not the absolute value of a signed sum")
+                result["v"] = lin(e[2][0])
+            else:
+                raise Bad("statement kind %s" % k)
+        ex(body)
+        if "v" not in result:
+            raise Bad("no return")
+        # antiderivative check
+        for n, node in lam.items():
+            lb = A.lambda_body(node)
+            rets = [x for x in A.walk(lb) if x.get("kind") == "ReturnStmt"]
+            pn = [p.get("name") for x in A.kids(node) if x.get("kind") == "CXXRecordDecl" for m in A.kids(x) if m.get("kind") == "CXXMethodDecl" and m.get("name") == "operator()" for p in A.params(m)]
+            u = pn[0] if pn else "u"
+            e = A.to_expr(A.kids(rets[0])[0])
+            for (a, b, c, uu) in ((2, 3, 5, 7), (-1, 4, 9, Fraction(1, 2)), (5, -6, 1, -3)):
+                if pe.ev(e, {"A": a, "B": b, "C": c, u: uu}) != Fraction(a) * uu ** 3 / 3 + Fraction(b) * uu ** 2 / 2 + c * uu:
+                    raise Bad("lambda %s is not the antiderivative A u^3/3 + B u^2/2 + C u" % n)
+        out = {}
+        for p, c in result["v"].items():
+            q = "t1" if p == "inf" else p
+            out[q] = out.get(q, 0) + c
+        return {p: c for p, c in out.items() if c != 0}
+
+    def expected(kind, cls):
+        roots = {"const": [], "linear": ["r"], "quad0": [], "quad2": ["r1", "r2"]}[kind]
+        cl = []
+        for p, c in zip(roots, cls):
+            cl.append({"L": "t0", "t0": "t0", "I": p, "t1": "t1", "R": "t1"}[c])
+        while len(cl) < 2:
+            cl.append("t1")
+        want = {}
+        for p, c in (("t1", 1), ("t0", -1), (cl[0], 2), (cl[1], -2)):
+            want[p] = want.get(p, 0) + c
+        return {p: c for p, c in want.items() if c != 0}
+    cases = [("const", ()), ("quad0", ())] + [("linear", (c,)) for c in ("L", "I", "R")] + \
+            [("quad2", c) for c in (("L", "L"), ("L", "I"), ("L", "R"), ("I", "I"), ("I", "R"), ("R", "R"))]
+    for kind, cls in cases:
+        inst = "%s%s" % (kind, list(cls))
+        try:
+            got = run_case(kind, cls)
+        except (Bad, pe.PEError, KeyError) as ex_:
+            rep.broke("I1: cannot analyse case %s: %s" % (inst, ex_))
+            continue
+        want = expected(kind, cls)
+        neg = {p: -c for p, c in want.items()}
+        ok = got == want or got == neg
+        rep.instance("I1", "integrate_absolute_polynomial", inst, ok=ok, sample={"file": fe.rel(fn.file), "line": fn.line, "combination": {k: str(v) for k, v in got.items()}})
+        if not ok:
+            rep.violation(Finding("I1", "integrate_absolute_polynomial", inst,
+                                  "with %s (positions of the root(s) relative to [t0,t1]: %s) the function returns |%s| in terms of the antiderivative F, "
+                                  "but the integral of |p| over [t0,t1] is |%s| (each root must be clamped into the interval from both sides)"
+                                  % ({"const": "a constant integrand", "linear": "a linear integrand", "quad0": "a quadratic without real roots",
+                                      "quad2": "a quadratic with two real roots"}[kind], list(cls),
+                                     " + ".join("%s*F(%s)" % (c, p) for p, c in sorted(got.items())),
+                                     " + ".join("%s*F(%s)" % (c, p) for p, c in sorted(want.items()))), fn.file, fn.line))
+
+
+# ---- I2: binary_interval_search by exhaustive abstract execution of its AST over an iterator/index machine ----------
+
+def check_i2(rep, max_len=8):
+    import itertools
+    import astlib as A
+    import fe
+    from report import Finding
+    rep.rule("I2", "binary_interval_search obeys its four documented cases for every sorted range up to length %d over a 4-letter alphabet and every query" % max_len, minimum=2)
+    idx = A.index(fe.ast_dump("binary_interval_search"))
+    fns = [d for d in idx if d.kind in A.FUNCS and d.pattern and d.qname.split("::")[-1] == "binary_interval_search" and A.body(d.node) is not None
+           and len(A.params(d.node)) == 3]
+    if len(fns) != 1:
+        rep.broke("I2: three-argument binary_interval_search not found")
+        return
+    fn = fns[0]
+    body = A.body(fn.node)
+    pr = [p.get("name") for p in A.params(fn.node)]      # range, query, comparator
+
+    class Ret(Exception):
+        def __init__(self, v):
+            self.v = v
+
+    class Brk(Exception):
+        pass
+
+    class Bad(Exception):
+        pass
+
+    class Fault(Exception):
+        pass
+
+    def run(arr, t, numeric):
+        env = {}
+        steps = [0]
+
+        def ev(e):
+            k = e[0]
+            if k == "num":
+                return float(e[1]) if e[1].denominator != 1 else int(e[1])
+            if k == "bool":
+                return bool(e[1])
+            if k == "ref":
+                if e[1] == pr[1]:
+                    return t
+                if e[1] in env:
+                    return env[e[1]]
+                raise Bad("name %s" % e[1])
+            if k == "un" and e[1] == "*":
+                i = ev(e[2])
+                if not (0 <= i < len(arr)):
+                    raise Fault("dereferences position %d of a range of length %d" % (i, len(arr)))
+                return arr[i]
+            if k == "un" and e[1] == "!":
+                return not ev(e[2])
+            if k == "ctor" and len(e[2]) == 1:
+                v = ev(e[2][0])
+                if "int" in e[1]:
+                    if v != v or v in (float("inf"), float("-inf")):
+                        raise Fault("converts %s to an integer" % v)
+                    return int(v)          # truncation toward zero, as the cast does
+                return v
+            if k == "call":
+                nm = str(e[1]).split("::")[-1]
+                a = e[2]
+                if nm == "cbegin" or nm == "begin":
+                    return 0
+                if nm == "cend" or nm == "end":
+                    return len(arr)
+                if nm == "empty":
+                    return len(arr) == 0
+                if nm == pr[2]:
+                    x, y = ev(a[0]), ev(a[1])
+                    return (x > y) - (x < y)
+                if nm == "distance":
+                    return ev(a[1]) - ev(a[0])
+                if nm == "next":
+                    if len(a) == 1:
+                        return ev(a[0]) + 1
+                    it, n = ev(a[0]), ev(a[1])
+                    if len(a) == 3:
+                        bound = ev(a[2])
+                        if n >= 0:
+                            return min(it + n, bound) if it <= bound else it    # std::ranges::next(i, n, bound) stops at bound
+                        return max(it + n, bound)
+                    return it + n
+                raise Bad("call %s" % nm)
+            if k == "op":
+                op = e[1]
+                if op == "||":
+                    return bool(ev(e[2])) or bool(ev(e[3]))
+                if op == "&&":
+                    if e[2][0] == "ref" and e[2][1] == "is_convertible_v":
+                        return numeric
+                    return bool(ev(e[2])) and bool(ev(e[3]))
+                if op == "=":
+                    env[e[2][1]] = ev(e[3])
+                    return env[e[2][1]]
+                x, y = ev(e[2]), ev(e[3])
+                if op == "+":
+                    return x + y
+                if op == "-":
+                    return x - y
+                if op == "*":
+                    return x * y
+                if op == "/":
+                    if y == 0:
+                        raise Fault("divides by zero (%s / %s)" % (x, y))
+                    return float(x) / float(y)
+                return {"<": x < y, "<=": x <= y, ">": x > y, ">=": x >= y, "==": x == y, "!=": x != y}[op]
+            raise Bad("expression %s" % A.show(e)[:50])
+
+        def ex(stmt):
+            steps[0] += 1
+            if steps[0] > 5000:
+                raise Fault("does not terminate")
+            k = stmt.get("kind")
+            ks = A.kids(stmt)
+            if k == "CompoundStmt":
+                for c in ks:
+                    ex(c)
+            elif k == "DeclStmt":
+                for v in ks:
+                    if v.get("kind") == "VarDecl" and A.kids(v):
+                        env[v.get("name")] = ev(A.to_expr(A.kids(v)[-1]))
+            elif k == "IfStmt":
+                if ev(A.to_expr(ks[0])):
+                    ex(ks[1])
+                elif len(ks) > 2:
+                    ex(ks[2])
+            elif k == "WhileStmt":
+                try:
+                    while ev(A.to_expr(ks[0])):
+                        ex(ks[1])
+                except Brk:
+                    pass
+            elif k == "BreakStmt":
+                raise Brk()
+            elif k == "ReturnStmt":
+                raise Ret(ev(A.to_expr(ks[0])))
+            elif k in ("BinaryOperator", "CXXOperatorCallExpr", "CompoundAssignOperator", "ExprWithCleanups"):
+                ev(A.to_expr(stmt))
+            elif k in ("NullStmt",) or k is None:
+                return
+            else:
+                raise Bad("statement kind %s" % k)
+        try:
+            ex(body)
+        except Ret as r:
+            return r.v
+        raise Bad("function falls off its end")
+
+    def spec(arr, t):
+        n = len(arr)
+        if n == 0 or t < arr[0]:
+            return [n]                 # not found: end()
+        if t >= arr[-1]:
+            return [n - 1]
+        return [i for i in range(n - 1) if arr[i] <= t < arr[i + 1]]   # unique for sorted input
+
+    alphabet = (0, 1, 2, 3)
+    queries = [x / 2.0 for x in range(-1, 8)]
+    for numeric in (True, False):
+        bad = None
+        cases = 0
+        try:
+            for n in range(0, max_len + 1):
+                for arr in itertools.combinations_with_replacement(alphabet, n):
+                    for t in queries:
+                        cases += 1
+                        try:
+                            got = run(list(arr), t, numeric)
+                        except Fault as fl:
+                            if bad is None:
+                                bad = (arr, t, "it " + str(fl), spec(list(arr), t))
+                            continue
+                        want = spec(list(arr), t)
+                        if got not in want and bad is None:
+                            bad = (arr, t, "returns position %s" % got, want)
+        except Bad as ex_:
+            rep.broke("I2: cannot interpret binary_interval_search (%s path): %s" % ("interpolating" if numeric else "bisection", ex_))
+            continue
+        mode = "interpolating (numeric values)" if numeric else "bisection (non-numeric values)"
+        rep.instance("I2", "binary_interval_search", mode, ok=bad is None, sample={"file": fe.rel(fn.file), "line": fn.line, "ranges_x_queries": cases})
+        if bad:
+            rep.violation(Finding("I2", "binary_interval_search", mode,
+                                  "for the sorted range %s and query %s the %s search %s; the documented cases require position %s "
+                                  "(end() = %d means not found)" % (list(bad[0]), bad[1], mode.split()[0], bad[2], bad[3], len(bad[0])), fn.file, fn.line))
